@@ -849,6 +849,10 @@ macro_rules! ubig_float_conversions {
                 if exp >= 0 {
                     result <<= exp as usize;
                 } else {
+                    if man != 0 && (man.trailing_zeros() as usize) < (-exp) as usize {
+                        // the float has a fractional part
+                        return Err(ConversionError::LossOfPrecision);
+                    }
                     result >>= (-exp) as usize;
                 }
                 Ok(result)
@@ -885,6 +889,10 @@ macro_rules! ibig_float_conversions {
                 if exp >= 0 {
                     result <<= exp as usize;
                 } else {
+                    if man != 0 && (man.trailing_zeros() as usize) < (-exp) as usize {
+                        // the float has a fractional part
+                        return Err(ConversionError::LossOfPrecision);
+                    }
                     result >>= (-exp) as usize;
                 }
                 Ok(result)
